@@ -294,16 +294,17 @@ Proof.
 Qed.
 
 (** ---- the hypotheses of [rest_never_panics] are satisfiable: the state of DeferW's example with an empty scope stack ---- *)
-Lemma rest_hyps_example :
-  exists (s : pstate) (g : ghost),
+Definition dex0_state : pstate := with_scopeStack dex_state [].
+
+Lemma dex0_hyps :
+  let s := dex0_state in let g := dex_ghost in
     R (p_tree s) g /\ info_valid (p_tree s) /\ rok (p_r s) /\ p_scopeStack s = [] /\ Inv (p_tables s) s /\
     glive g 0 /\ groot g 0 /\ is_sb s 0 /\ tyS NoX (p_tables s) (p_handle s) (p_tree s) g /\
     TM2 (p_tree s) g /\ PEND s g /\ typed (p_tree s) /\
-    lp s + lp s * (8 * r_len (p_r s) + 3) + 4 <= InvalidIndex /\
-    match parse_rest 10 s with Ok (b, s') => b = true /\ lp s' = 4 | _ => False end.
+    lp s + lp s * (8 * r_len (p_r s) + 3) + 4 <= InvalidIndex.
 Proof.
+  cbv zeta. unfold dex0_state.
   destruct dex_hyps as (oo & op & fl & af & A & B & C & D & E & F & G & Hoo & Hrow & Hdf & Hh & Hfl & HTM & _ & _).
-  exists (with_scopeStack dex_state []), dex_ghost.
   split; [exact A|]. split; [exact B|]. split; [exact C|]. split; [reflexivity|].
   split; [destruct E as [E1 E2 E3 E4 E5]; constructor; assumption|].
   split; [exact F|]. split; [apply groot_chk; vm_compute; reflexivity|].
@@ -329,6 +330,20 @@ Proof.
                                            exists tbl sl, o_value o = Some (VBytes tbl sl))). intros k o Hk _ Hop.
     do 2 (destruct k as [|k]; [vm_compute in Hk; inversion Hk; subst o; vm_compute in Hop; discriminate|]).
     vm_compute in Hk. destruct k; discriminate. }
-  split; [vm_compute; discriminate|].
-  vm_compute. split; reflexivity.
+  vm_compute; discriminate.
+Qed.
+
+Lemma rest_hyps_example :
+  exists (s : pstate) (g : ghost),
+    R (p_tree s) g /\ info_valid (p_tree s) /\ rok (p_r s) /\ p_scopeStack s = [] /\ Inv (p_tables s) s /\
+    glive g 0 /\ groot g 0 /\ is_sb s 0 /\ tyS NoX (p_tables s) (p_handle s) (p_tree s) g /\
+    TM2 (p_tree s) g /\ PEND s g /\ typed (p_tree s) /\
+    lp s + lp s * (8 * r_len (p_r s) + 3) + 4 <= InvalidIndex /\
+    match parse_rest 10 s with Ok (b, s') => b = true /\ lp s' = 4 | _ => False end.
+Proof.
+  pose proof dex0_hyps as H. cbv zeta in H. destruct H as (A & B & C & D & E & F & G & H1 & H2 & H3 & H4 & H5 & H6).
+  exists dex0_state, dex_ghost.
+  split; [exact A|]. split; [exact B|]. split; [exact C|]. split; [exact D|]. split; [exact E|]. split; [exact F|].
+  split; [exact G|]. split; [exact H1|]. split; [exact H2|]. split; [exact H3|]. split; [exact H4|]. split; [exact H5|].
+  split; [exact H6|]. vm_compute. split; reflexivity.
 Qed.
